@@ -18,8 +18,9 @@ Print Assumptions C20_reader_exact.
 
 (* The server, for all numbers n of connections and ALL sequences of transport deliveries
    (any chunking), EOFs and handler steps (any interleaving of the handlers): an invariant
-   saying that what was written to writer j on behalf of connection i is the list of whole
-   32-byte units read from i so far (minus the one in flight), and nothing for j = i. *)
+   saying that what was written to the writer of a still connected j on behalf of connection i
+   is the list of whole 32-byte units read from i so far (minus the one in flight), and
+   nothing for j = i. *)
 Theorem C20_server_invariant : forall n ls, Inv n (run n init ls).
 Proof. intros; apply inv_run, inv_init. Qed.
 Print Assumptions C20_server_invariant.
@@ -32,7 +33,8 @@ Print Assumptions C20_arrived_any_chunking.
 
 (* notify_exact.  n workers; worker i has announced the ids `ann i` (32 bytes each), all of
    which reached the server (possibly followed by a partial id cut off by a disconnect); the
-   server is quiescent; worker j's client has received its whole down stream in any chunks.
+   server is quiescent; worker j is still connected and its client has received its whole down
+   stream in any chunks.
    Then the ids worker j passes to storage.get_event are an interleaving of the OTHER workers'
    announcement sequences: per sender exactly its sequence, each id whole and once, in order,
    none of j's own; and nothing is left in its buffer. *)
@@ -41,7 +43,8 @@ Theorem C20_notify_exact : forall n (ann : nat -> list bytes) ls st,
   st = run n init ls ->
   (forall i, exists p, s_arr st i = concat (ann i) ++ p /\ length p < IDLEN) ->
   quiescent st ->
-  forall j, j < n -> forall cchunks, concat cchunks = concat (map snd (s_out st j)) ->
+  forall j, j < n -> s_pc st j <> Closed ->
+  forall cchunks, concat cchunks = concat (map snd (s_out st j)) ->
   exists tagged, map snd tagged = fst (client_run [] cchunks) /\ snd (client_run [] cchunks) = [] /\
                  Interleaving (others ann j) tagged.
 Proof. exact notify_exact. Qed.
@@ -56,6 +59,7 @@ Theorem C20_notify_safe : forall n (ann : nat -> list bytes) ls st j cchunks m,
   (forall i, Forall len32 (ann i)) ->
   st = run n init ls ->
   (forall i, exists mi, s_arr st i = firstn mi (concat (ann i))) ->
+  s_pc st j <> Closed ->
   concat cchunks = firstn m (concat (map snd (s_out st j))) ->
   exists tagged, map snd tagged = fst (client_run [] cchunks) /\
     from j tagged = [] /\ forall i, exists k, from i tagged = firstn k (ann i).
